@@ -134,11 +134,18 @@ func runProm(tt *testing.T, tape *simrt.Tape, keep bool) (out simrt.Outcome) {
 		urls := []string{"http://a/", "http://b/x", "http://c/?q=1", "http://c/?q=120", "http://c/?q=1 200", "http://c/?q=12"}
 		errs := []string{"500 Internal Server Error", "Get \"http://a/\": EOF", "timeout"}
 		lats := []time.Duration{0, time.Millisecond, 5 * time.Millisecond, 5*time.Millisecond + 1, 10 * time.Millisecond, 250 * time.Millisecond, time.Second, 2500 * time.Millisecond, 10 * time.Second, 11 * time.Second, time.Hour, 4999999 * time.Nanosecond}
+		wide := total >= 500 && tape.Prob(1, 2)
 		results := make([]*vegeta.Result, total)
 		ref := map[promKey]*promRef{}
 		for i := range results {
 			r := &vegeta.Result{Method: methods[tape.Choose(2)], URL: urls[tape.Choose(len(urls))], Code: []uint16{200, 200, 404, 500, 0, 20, 1200 % 600}[tape.Choose(7)],
 				BytesIn: uint64(tape.Choose(1 << 20)), BytesOut: uint64(tape.Choose(1 << 12)), Latency: lats[tape.Choose(len(lats))] + time.Duration(tape.Choose(1000))}
+			if wide {
+				// one label set with latencies spread log-uniformly over 20 µs .. 30 s (a target that is sometimes
+				// cached and sometimes times out): hundreds of distinct magnitudes in one series
+				r.Method, r.URL, r.Code = "GET", urls[0], 200
+				r.Latency = time.Duration(20e3 * math.Pow(1.5e6, float64(tape.Choose(100000))/100000))
+			}
 			if r.Code != 200 || tape.Prob(1, 10) {
 				r.Error = errs[tape.Choose(len(errs))]
 			}
@@ -280,6 +287,13 @@ func runProm(tt *testing.T, tape *simrt.Tape, keep bool) (out simrt.Outcome) {
 			w.Release(ar, 1, nil)
 		}
 		// ---- final scrape against the reference ----
+		if viol == nil && tape.Prob(1, 3) {
+			// the exporter is scraped for as long as the attack runs: minutes of (fake) time may pass between the
+			// observations and a scrape; whatever timers the metrics library keeps get their chance to fire
+			w.Advance(time.Duration(61+tape.Choose(600)) * time.Second)
+			w.Settle()
+			stats["fault.minutes-pass-before-the-scrape"]++
+		}
 		if viol == nil {
 			mfs, err := reg.Gather()
 			if err != nil {
